@@ -10,9 +10,19 @@ here="$(cd "$(dirname "$0")/.." && pwd)"
 export VERIF_REPO="$repo"
 [ -n "${BENIGN_COUNT:-}" ] && export VERIF_COUNT="$BENIGN_COUNT"
 alarms=0
+head=$(git -C "$repo" rev-parse HEAD)
 for name in "$@"; do
     git -C "$repo" checkout -q -- . || exit 2
-    if ! git -C "$repo" apply "$here/benign/$name/patch.diff"; then echo "$name: patch does not apply"; continue; fi
+    git -C "$repo" checkout -q --detach "$head" || exit 2
+    if ! git -C "$repo" apply "$here/benign/$name/patch.diff" 2>/dev/null; then
+        # written against an older commit: test it on that commit (benign/<name>/base)
+        base=$(cat "$here/benign/$name/base" 2>/dev/null)
+        if [ -n "$base" ] && git -C "$repo" checkout -q --detach "$base" && git -C "$repo" apply "$here/benign/$name/patch.diff"; then
+            echo "$name: applied on its base commit $base"
+        else
+            echo "$name: patch does not apply"; continue
+        fi
+    fi
     ( cd "$repo" && cargo test --offline --lib 2>&1 | grep -E "^test result" | head -1 | sed "s/^/$name: baseline tests: /" )
     for p in C01 C02 C03 C04 C05 C06 C07 C08 C09 C10 C11 C12 C13 C14 C15 C16 C17 C18 C19 C20; do
         out=$("$here/check" "$p" quick 2>&1); rc=$?
@@ -24,5 +34,6 @@ for name in "$@"; do
         fi
     done
     git -C "$repo" checkout -q -- .
+    git -C "$repo" checkout -q --detach "$head"
 done
 echo "alarms=$alarms"
